@@ -51,6 +51,22 @@ void h_lifecycle(void) {
     __CPROVER_assert(manifold_cross_section_vec_length((struct ManifoldCrossSectionVec *)&w) == n, "cross_section_vec_length is the number of elements");
   }
   { BEGIN_CASE();
+    struct std_vector_Manifold v; v._size = n; v._cap = nondet_ulong(); __CPROVER_assume(v._cap >= n + 1 && v._cap <= 2000000);   /* capacity left: the vector model loses contents on reallocation */
+    v._data = malloc(v._cap * sizeof(struct Manifold)); __CPROVER_assume(v._data != 0);
+    struct Manifold src; struct Manifold before = src;
+    manifold_manifold_vec_push_back((struct ManifoldManifoldVec *)&v, (struct ManifoldManifold *)&src);
+    NOT_MOVED();
+    __CPROVER_assert(v._size == n + 1 && v._data[n].pNode_ == before.pNode_ && src.pNode_ == before.pNode_, "vec_push_back appends a copy of *m; the caller's object is unchanged");
+  }
+  { BEGIN_CASE();
+    struct std_vector_CrossSection v; v._size = n; v._cap = nondet_ulong(); __CPROVER_assume(v._cap >= n + 1 && v._cap <= 2000000);   /* capacity left: the vector model loses contents on reallocation */
+    v._data = malloc(v._cap * sizeof(struct CrossSection)); __CPROVER_assume(v._data != 0);
+    struct CrossSection src; struct CrossSection before = src;
+    manifold_cross_section_vec_push_back((struct ManifoldCrossSectionVec *)&v, (struct ManifoldCrossSection *)&src);
+    NOT_MOVED();
+    __CPROVER_assert(v._size == n + 1 && v._data[n].paths_ == before.paths_ && src.paths_ == before.paths_, "cross_section_vec_push_back appends a copy of *cs; the caller's object is unchanged");
+  }
+  { BEGIN_CASE();
     struct Manifold src; struct Manifold before = src;
     void *r = manifold_copy(mem, (struct ManifoldManifold *)&src);
     IN_PLACE(r, mem); NOT_MOVED();
